@@ -1,4 +1,5 @@
 import OV.Model.C12Autocast
+import OV.Model.C12Cache
 /-! Helper lemmas for C12 (core Lean only). -/
 deriving instance DecidableEq for Except
 
@@ -574,9 +575,9 @@ theorem pyEqS_refl (x : Scalar) : pyEqS x x = true := by
   unfold pyEqS
   simp
 
-/-- Every cache entry holds the tensor of its own key, and keys are well formed, without negative zero
-and within the model. -/
-def CacheOk (c : Cache) : Prop :=
+/-- PRE-FIX invariant: every cache entry holds the tensor of its own key, and keys are well formed, without
+negative zero and within the model. -/
+def CacheOkPre (c : Cache) : Prop :=
   ∀ e ∈ c, mapE (fun s => npCast s e.dtype) e.key.elems = .ok e.vals ∧ e.dtype = e.keyDt.getD .bool
     ∧ e.key.WF ∧ e.key.SI ∧ LitModelled e.key e.dtype
 
@@ -585,12 +586,88 @@ def NamesOk (c : Cache) : Prop :=
   (c.map (·.name)).Nodup ∧ (∀ e ∈ c, ∀ n, e.name = .list n → n < c.length) ∧
     (∀ e ∈ c, ∀ x kd, e.name = .scalar x kd → e.key = .s x ∧ e.keyDt = kd)
 
-theorem namesOk_promote (c : Cache) (hn : NamesOk c) (l : Lit) (dt : Option DType) (c' : Cache) (e : Entry)
-    (h : promote c l dt = .ok (c', e)) : NamesOk c' := by
-  unfold promote at h
+/-! repr-keyed cache (the code since fix F8) -/
+
+theorem resEqvS_refl (r : Except Err SVal) : resEqvS r r := by
+  cases r with
+  | ok v => exact SVal.eqv_refl v
+  | error e => rfl
+
+/-- Two Python scalars with one `repr` become the same tensor element under every dtype. -/
+theorem reprEqS_cast_same (x y : Scalar) (dt : DType) (hx : x.WF) (hy : y.WF) (h : reprEqS x y = true) :
+    resEqvS (npCast x dt) (npCast y dt) := by
+  cases x with
+  | b v =>
+    cases y <;> simp only [reprEqS, beq_iff_eq] at h
+    · subst h; exact resEqvS_refl _
+    · cases h
+    · cases h
+  | i v =>
+    cases y <;> simp only [reprEqS, beq_iff_eq] at h
+    · cases h
+    · subst h; exact resEqvS_refl _
+    · cases h
+  | f s n d =>
+    cases y with
+    | b w => simp [reprEqS] at h
+    | i w => simp [reprEqS] at h
+    | f s' n' d' =>
+      simp only [reprEqS, Bool.and_eq_true, beq_iff_eq] at h
+      obtain ⟨hs, hc⟩ := h
+      subst hs
+      exact npCastF_eqv s n d n' d' hx hy hc dt
+
+theorem reprEqList_cast_same (dt : DType) : ∀ (xs ys : List Scalar),
+    (∀ e ∈ xs, e.WF) → (∀ e ∈ ys, e.WF) → reprEqList xs ys = true →
+    valsEqv (mapE (fun e => npCast e dt) xs) (mapE (fun e => npCast e dt) ys)
+  | [], [], _, _, _ => True.intro
+  | [], _ :: _, _, _, h => by simp [reprEqList] at h
+  | _ :: _, [], _, _, h => by simp [reprEqList] at h
+  | x :: xs, y :: ys, hx, hy, h => by
+    simp only [reprEqList, Bool.and_eq_true] at h
+    have h0 := reprEqS_cast_same x y dt (hx x List.mem_cons_self) (hy y List.mem_cons_self) h.1
+    have ih := reprEqList_cast_same dt xs ys (fun e he => hx e (List.mem_cons_of_mem _ he))
+      (fun e he => hy e (List.mem_cons_of_mem _ he)) h.2
+    simp only [mapE]
+    cases hcx : npCast x dt <;> cases hcy : npCast y dt <;> rw [hcx, hcy] at h0 <;>
+      simp only [resEqvS] at h0
+    · trivial
+    · cases hmx : mapE (fun e => npCast e dt) xs <;> cases hmy : mapE (fun e => npCast e dt) ys <;>
+        rw [hmx, hmy] at ih <;> simp only [valsEqv] at ih ⊢
+      exact ⟨h0, ih⟩
+
+theorem reprEq_cast_same (k l : Lit) (dt : DType) (hk : k.WF) (hl : l.WF) (h : reprEq k l = true) :
+    valsEqv (mapE (fun e => npCast e dt) k.elems) (mapE (fun e => npCast e dt) l.elems) := by
+  cases k with
+  | s x =>
+    cases l with
+    | s y =>
+      apply reprEqList_cast_same dt [x] [y] hk hl
+      simpa [reprEqList, reprEq] using h
+    | l y ys => simp [reprEq] at h
+  | l x xs =>
+    cases l with
+    | s y => simp [reprEq] at h
+    | l y ys => exact reprEqList_cast_same dt (x :: xs) (y :: ys) hk hl (by simpa [reprEq] using h)
+
+theorem reprEqS_refl (x : Scalar) : reprEqS x x = true := by
+  cases x <;> simp [reprEqS]
+
+theorem reprEq_refl_s (x : Scalar) : reprEq (.s x) (.s x) = true := reprEqS_refl x
+
+theorem pyEq_refl_s (x : Scalar) : pyEq (.s x) (.s x) = true := pyEqS_refl x
+
+/-- Every cache entry holds the tensor of its own key (denominators positive). -/
+def CacheOk (c : Cache) : Prop :=
+  ∀ e ∈ c, mapE (fun s => npCast s e.dtype) e.key.elems = .ok e.vals ∧ e.dtype = e.keyDt.getD .bool ∧ e.key.WF
+
+theorem namesOk_promoteBy (eq : Lit → Lit → Bool) (hrefl : ∀ x, eq (.s x) (.s x) = true)
+    (c : Cache) (hn : NamesOk c) (l : Lit) (dt : Option DType) (c' : Cache) (e : Entry)
+    (h : promoteBy eq c l dt = .ok (c', e)) : NamesOk c' := by
+  unfold promoteBy at h
   by_cases ha : builderAccepts l
   · simp only [ha, Bool.not_true, Bool.false_eq_true, if_false] at h
-    cases hf : c.find l (keyDType l dt) with
+    cases hf : c.findBy eq l (keyDType l dt) with
     | some e0 =>
       rw [hf] at h
       simp only [Except.ok.injEq, Prod.mk.injEq] at h
@@ -604,7 +681,7 @@ theorem namesOk_promote (c : Cache) (hn : NamesOk c) (l : Lit) (dt : Option DTyp
         simp only [hm, Except.ok.injEq, Prod.mk.injEq] at h
         obtain ⟨rfl, rfl⟩ := h
         obtain ⟨h1, h2, h3⟩ := hn
-        unfold Cache.find at hf
+        unfold Cache.findBy at hf
         rw [List.find?_eq_none] at hf
         refine ⟨?_, ?_, ?_⟩
         · rw [List.map_append, List.nodup_append]
@@ -619,7 +696,7 @@ theorem namesOk_promote (c : Cache) (hn : NamesOk c) (l : Lit) (dt : Option DTyp
             simp only [cname] at heq
             obtain ⟨hk, hd⟩ := h3 e' he' x _ heq
             apply hf e' he'
-            simp [hk, hd, pyEq, pyEqS_refl]
+            simp [hk, hd, hrefl]
           | l x xs =>
             simp only [cname] at heq
             exact absurd (h2 e' he' _ heq) (Nat.lt_irrefl _)
@@ -642,18 +719,19 @@ theorem namesOk_promote (c : Cache) (hn : NamesOk c) (l : Lit) (dt : Option DTyp
             · cases hs
   · simp [ha] at h
 
-theorem namesOk_promoteAll (reqs : List (Lit × Option DType)) : ∀ c, NamesOk c → NamesOk (promoteAll c reqs) := by
+theorem namesOk_promoteAllBy (eq : Lit → Lit → Bool) (hrefl : ∀ x, eq (.s x) (.s x) = true)
+    (reqs : List (Lit × Option DType)) : ∀ c, NamesOk c → NamesOk (promoteAllBy eq c reqs) := by
   induction reqs with
   | nil => intro c h; exact h
   | cons r rs ih =>
     intro c h
     obtain ⟨l, dt⟩ := r
-    unfold promoteAll
-    cases hp : promote c l dt with
+    unfold promoteAllBy
+    cases hp : promoteBy eq c l dt with
     | error e => exact ih c h
     | ok r' =>
       obtain ⟨c', e⟩ := r'
-      exact ih c' (namesOk_promote c h l dt c' e hp)
+      exact ih c' (namesOk_promoteBy eq hrefl c h l dt c' e hp)
 
 
 /-- A call with a single tensor operand is well typed (used for the concrete witnesses). -/
